@@ -347,6 +347,12 @@ class RefServer(object):
             self.comp_switch = self.tx_off
         elif kind == 'close':
             self.close()
+        elif kind == 'rawbytes':        # unframed bytes (partial frames)
+            data = ev[1]
+            if self.tx_cipher is not None:
+                data = self.tx_cipher.encrypt(data)
+            self.tx_off += len(data)
+            self.conn.push(data)
         else:
             raise ValueError(ev)
         self.sent_log.append(ev)
